@@ -45,15 +45,24 @@ Qed.
 Lemma firstn_nil_inv : forall (l : list A) n, n > 0 -> firstn n l = [] -> l = [].
 Proof. intros l n Hn H. destruct l; [reflexivity|]. destruct n; [lia|]. simpl in H. discriminate. Qed.
 
+Lemma ident_go_S : forall f a b, ident_go A eqb B (S f) a b =
+  match firstn B a with
+  | [] => match b with [] => true | _ :: _ => false end
+  | b0 => let b1 := firstn (length b0) b in
+          if Nat.eqb (length b1) (length b0) && list_eqb A eqb b0 b1
+          then ident_go A eqb B f (skipn B a) (skipn (length b0) b) else false
+  end.
+Proof. reflexivity. Qed.
+
 (* the loop invariant: with enough fuel the loop decides equality of what is left of the two files *)
 Lemma ident_go_iff : forall fuel a b, length a < fuel ->
   (ident_go A eqb B fuel a b = true <-> a = b).
 Proof.
   induction fuel as [|f IH]; intros a b Hlen; [lia|].
-  simpl. destruct (firstn B a) as [|x b0'] eqn:E.
+  rewrite ident_go_S. destruct (firstn B a) as [|x b0'] eqn:E.
   - apply firstn_nil_inv in E; [|exact Bpos]. subst a.
     destruct b; split; intro H; try reflexivity; discriminate.
-  - set (b0 := x :: b0') in *.
+  - cbv zeta. set (b0 := x :: b0') in *.
     assert (Hb0 : length b0 >= 1) by (unfold b0; simpl; lia).
     assert (Ha : a = b0 ++ skipn B a) by (rewrite <- E; symmetry; apply firstn_skipn).
     assert (Hskip : length (skipn B a) < f).
